@@ -18,6 +18,9 @@ def build_inputs(c, t, rng):
         for kind, el, raw in reqgen.numeric_extremes(r):
             inputs.append(({"route": r.route, "el": el, "kind": kind}, raw))
     for r in valid:
+        for kind, el, raw in reqgen.line_ending_variants(r):
+            inputs.append(({"route": r.route, "el": el, "kind": kind}, raw))
+    for r in valid:
         inputs.append(({"route": r.route, "el": "none", "kind": "valid"}, r.bytes()))
         for kind, el, raw in reqgen.mutations(r, rng, per):
             inputs.append(({"route": r.route, "el": el, "kind": kind}, raw))
@@ -75,7 +78,7 @@ def run(c):
         for nspec, spec in ((2100, "0-0"), (1500, "5-6"), (1100, "-1"), (2000, "1-1")):
             inputs.append(({"route": "static-multirange", "el": "many-ranges-of-a-large-file", "kind": "many-ranges:%d" % nspec},
                            ("GET /big1m.bin HTTP/1.1\r\nHost: x\r\nRange: bytes=%s\r\n\r\n" % ",".join([spec] * nspec)).encode()))
-        for cat in ("a 4xx/5xx for an unparseable request line", "input larger than the request buffer", "ErrApp handler", "engine B: response from the shipped binary"):
+        for cat in ("a 4xx/5xx for an unparseable request line", "input larger than the request buffer", "ErrApp handler", "engine B: response from the shipped binary", "engine B: burst of simultaneous connections"):
             c.need(cat)
         # ---------- Engine A
         for lane in ("rel", "chk"):
@@ -115,6 +118,7 @@ def run(c):
         for lane in (("rel",) if c.quick else ("rel", "chk")):
             engine_b(c, t, pick, lane, concurrent=False)
             engine_b(c, t, pick[: len(pick) // 2], lane, concurrent=True)
+            burst_b(c, t, lane)
         if not c.quick:
             # coverage-guided amplifier on Server::process (scripted transport, real App, this tree as cwd)
             from .. import fuzzlane
@@ -179,6 +183,64 @@ def engine_b(c, t, pick, lane, concurrent):
                 c.violation("C04:worker-lost:binary:concurrent", "workers alive %s of %d after the concurrent campaign; log: %s" % (srv.workers_alive(), threads, srv.crash_lines()[:3]), {"lane": lane})
     finally:
         if srv is not None:
+            srv.cleanup()
+
+
+def burst_b(c, t, lane):
+    """connections are opened first (more than workers, more than any plausible queue bound), then every one of them sends
+    a valid request: each must receive exactly one complete response - none may be dropped silently"""
+    import socket, base64
+    for threads, k in ((2, 24), (4, 64)):
+        srv = server.Server(t.root, threads=threads, lane=lane)
+        if not srv.started:
+            srv.cleanup()
+            c.inconc("server did not start")
+            continue
+        try:
+            f = sorted(x for x in t.files if 30 < len(t.files[x]) < 3000)[0]
+            raw = ("GET %s HTTP/1.1\r\nHost: x\r\n\r\n" % f).encode()
+            socks = []
+            for _ in range(k):
+                try:
+                    socks.append(srv.connect(timeout=20))
+                except OSError:
+                    socks.append(None)
+            import time
+            time.sleep(0.1)
+            got = []
+            # the LAST connections send first: they are the ones waiting in the queue (or dropped)
+            for s in reversed(socks):
+                if s is None:
+                    got.append((b"", "refused"))
+                    continue
+                try:
+                    s.sendall(raw)
+                except OSError:
+                    pass
+            for s in reversed(socks):
+                if s is None:
+                    continue
+                buf, end = b"", "eof"
+                try:
+                    while True:
+                        ch = s.recv(65536)
+                        if not ch:
+                            break
+                        buf += ch
+                except socket.timeout:
+                    end = "timeout"
+                except OSError:
+                    end = "reset"
+                got.append((buf, end))
+                s.close()
+            bad = [(len(b), e) for b, e in got if not b.startswith(b"HTTP/1.1 200")]
+            c.ev(len(got))
+            c.cls("burst", threads, k, lane)
+            c.seen("engine B: burst of simultaneous connections")
+            if bad:
+                c.violation("C04:connection-dropped:burst", "%d of %d simultaneous connections on a %d-worker server did not receive a response (%s)" % (len(bad), k, threads, bad[:3]),
+                            {"workers": threads, "connections": k, "lane": lane, "request_b64": base64.b64encode(raw).decode()})
+        finally:
             srv.cleanup()
 
 
